@@ -244,3 +244,68 @@ func MaybeNilDerefs(ds *Describer, fn *ssa.Function) []NilDeref {
 	}
 	return out
 }
+
+// FailedUse is a use of a call's non-error result on a path where the call is known to have failed.
+type FailedUse struct {
+	Call    *ssa.Call
+	Use     ssa.Instruction
+	Witness []ssa.Instruction
+}
+
+// UsesAfterFailedCall finds, for calls returning (T, error) with T a pointer or interface, dereferencing uses
+// of the T result that are reachable only through the edge on which the error is non-nil (strict form:
+// the result is nil there by the usual Go contract).
+func UsesAfterFailedCall(ds *Describer, fn *ssa.Function) []FailedUse {
+	var out []FailedUse
+	EachInstr(fn, func(in ssa.Instruction) {
+		call, ok := in.(*ssa.Call)
+		if !ok {
+			return
+		}
+		sig := call.Call.Signature()
+		n := sig.Results().Len()
+		if n < 2 || !IsErrorType(sig.Results().At(n-1).Type()) {
+			return
+		}
+		errEx := ExtractOf(call, n-1)
+		if errEx == nil {
+			return
+		}
+		for i := 0; i < n-1; i++ {
+			switch sig.Results().At(i).Type().Underlying().(type) {
+			case *types.Pointer, *types.Interface:
+			default:
+				continue
+			}
+			res := ExtractOf(call, i)
+			if res == nil || res.Referrers() == nil {
+				continue
+			}
+			failG := func(c Cond) int {
+				s := ErrNilSucc(c, errEx)
+				if s < 0 {
+					return -1
+				}
+				return 1 - s
+			}
+			if CountGuards(ds, fn, failG) == 0 {
+				continue
+			}
+			// values that may carry the result: the result itself and phis of it
+			for _, use := range *res.Referrers() {
+				if !isDerefUse(res, use) {
+					continue
+				}
+				// reachable from the call at all, and unreachable once the failure edges are removed => only on failure
+				w := PathQuery{Fn: fn, From: call, Target: func(x ssa.Instruction) bool { return x == use }}.Find()
+				if w == nil {
+					continue
+				}
+				if Unguarded(ds, fn, call, func(x ssa.Instruction) bool { return x == use }, failG) == nil {
+					out = append(out, FailedUse{Call: call, Use: use, Witness: w})
+				}
+			}
+		}
+	})
+	return out
+}
